@@ -324,6 +324,10 @@ pub fn check(c: &mut Case, flags: u32, specs: &[AssetSpec], name: &str) {
 const F32_BITS: [u32; 8] = [0, 0x8000_0000, 0x7F80_0000, 0xFF80_0000, 0x7FC0_1234, 0x7F80_0001, 0x0000_0001, 0x3F80_0000];
 
 fn text(rng: &mut Rng) -> String {
+    if rng.chance(1, 30) {
+        // strings that look like placeholders or differ from each other only by case / a trailing blank
+        return rng.pick(&["NULL", "null", "Null", "none", "None", "0", "-1", "NULL ", " NULL", "nullptr"]).to_string();
+    }
     match rng.below(6) {
         0 => String::new(),
         1 => gen_sjis(rng, 6),
